@@ -20,6 +20,7 @@ else:
     d = f'/verif/seeded/{label}'
     meta = json.load(open(f'{d}/meta.json'))
 checks = sys.argv[2:] or [meta['property']]
+ENG = os.environ.get('ENGINE_SRC', '/verif/engine')
 S = os.environ.get('SEVAL_DIR', '/tmp/seval3')
 env = dict(os.environ, CARGO_NET_OFFLINE='true', PATH='/tmp/tools:' + os.environ['PATH'], MINILUA_COMPAT_5_2='1')
 def sh(cmd, cwd=None, timeout=3600, env=env):
@@ -33,10 +34,13 @@ sh('git checkout -q -f $(git -C /repo rev-parse HEAD) && git clean -fdq', cwd=f'
 rc, o = sh(f'git apply {d}/patch.diff', cwd=f'{S}/repo')
 if rc != 0:
     print('patch does not apply', o); sys.exit(2)
-sh(f'mkdir -p {S}/engine/.cargo && rsync -a --delete --exclude .cargo --exclude syltmc/Cargo.toml /verif/engine/minilua /verif/engine/syltmc /verif/engine/Cargo.toml /verif/engine/Cargo.lock {S}/engine/')
-sh(f"sed 's#/repo/#{S}/repo/#g' /verif/engine/syltmc/Cargo.toml > {S}/engine/syltmc/Cargo.toml.new && (cmp -s {S}/engine/syltmc/Cargo.toml.new {S}/engine/syltmc/Cargo.toml || mv {S}/engine/syltmc/Cargo.toml.new {S}/engine/syltmc/Cargo.toml); rm -f {S}/engine/syltmc/Cargo.toml.new")
+sh(f'mkdir -p {S}/engine/.cargo && rsync -a --delete --exclude .cargo --exclude syltmc/Cargo.toml {ENG}/minilua {ENG}/syltmc {ENG}/Cargo.toml {ENG}/Cargo.lock {S}/engine/')
+sh(f"sed 's#/repo/#{S}/repo/#g' {ENG}/syltmc/Cargo.toml > {S}/engine/syltmc/Cargo.toml.new && (cmp -s {S}/engine/syltmc/Cargo.toml.new {S}/engine/syltmc/Cargo.toml || mv {S}/engine/syltmc/Cargo.toml.new {S}/engine/syltmc/Cargo.toml); rm -f {S}/engine/syltmc/Cargo.toml.new")
 open(f'{S}/engine/.cargo/config.toml', 'w').write(f'[net]\noffline = true\n[build]\ntarget-dir = "{S}/target"\n')
+sh(f'rm -f {S}/target/release/syltmc')
 rc, o = sh('cargo build --release --offline 2>&1 | tail -5', cwd=f'{S}/engine')
+if not os.path.exists(f'{S}/target/release/syltmc'):
+    print('ENGINE-BUILD-FAILED (the harness does not build against the changed tree: every check would exit 2)\n' + o[-1500:])
 if rc != 0 or 'error' in o:
     print(o)
 sh(f'cargo build --offline --bin sylt --target-dir {S}/target/sylt-bin 2>&1 | tail -2', cwd=f'{S}/repo')
